@@ -3,12 +3,9 @@ package main
 import (
 	"context"
 	"fmt"
-	"os"
 	"strconv"
 	"strings"
 	"time"
-
-	"github.com/deckhouse/deckhouse/pkg/log"
 
 	"github.com/flant/shell-operator/pkg/task"
 	"github.com/flant/shell-operator/pkg/task/queue"
@@ -16,14 +13,6 @@ import (
 )
 
 func init() { suites["c05"] = runC05 }
-
-var sched = func() *verifsched.Controller {
-	_ = os.Setenv("QUEUE_ACTIONS_METRICS", "no")
-	log.SetDefault(log.NewNop())
-	c := verifsched.NewController()
-	verifsched.Install(c)
-	return c
-}()
 
 func mkTask(id int) task.Task {
 	t := task.NewTask("T")
@@ -70,6 +59,7 @@ type workerQ struct {
 	started bool
 
 	poisoned bool
+	parked   *verifsched.Arrival
 }
 
 func newWorkerQ(name string) *workerQ {
@@ -105,15 +95,20 @@ func (w *workerQ) pick() string {
 		w.q.Start()
 		w.started = true
 	}
-	select {
-	case a := <-w.arrive:
-		if a.Name != "queue.loop" {
+	if w.parked != nil {
+		w.parked.Release()
+		w.parked = nil
+	} else {
+		select {
+		case a := <-w.arrive:
+			if a.Name != "queue.loop" {
+				a.Release()
+				return "unexpected-point-" + a.Name
+			}
 			a.Release()
-			return "unexpected-point-" + a.Name
+		case <-time.After(10 * time.Second):
+			return "timeout-loop"
 		}
-		a.Release()
-	case <-time.After(10 * time.Second):
-		return "timeout-loop"
 	}
 	for {
 		select {
@@ -137,7 +132,11 @@ func (w *workerQ) answer(res queue.TaskResult) string {
 	for {
 		select {
 		case a := <-w.arrive:
-			a.Release() // queue.afterHandler
+			if a.Name == "queue.loop" {
+				w.parked = a // the worker is back at the top of its loop: keep it there until the next pick
+			} else {
+				a.Release() // queue.afterHandler
+			}
 		case <-w.applied:
 			w.cur = "nil"
 			return "-"
@@ -150,6 +149,9 @@ func (w *workerQ) answer(res queue.TaskResult) string {
 func (w *workerQ) close() {
 	sched.Unsubscribe(w.name)
 	w.cancel()
+	if w.parked != nil {
+		w.parked.Release()
+	}
 	if w.cur != "nil" {
 		select {
 		case w.result <- queue.TaskResult{Status: queue.Keep}:
